@@ -125,6 +125,10 @@ type c10Case struct {
 	Err     *gens.ErrSpec
 	Both    bool
 	Choices []int
+	// ReqSize: bytes appended to the request, so that with a small split size it travels in several frames and
+	// the server's answer (in particular a dispatcher failure, sent as soon as the invoke is there) can arrive
+	// while the client is still writing it
+	ReqSize int
 }
 
 func genC10(t *rapid.T) c10Case {
@@ -135,6 +139,7 @@ func genC10(t *rapid.T) c10Case {
 	}
 	c.Both = rapid.Bool().Draw(t, "both")
 	c.Choices = genChoices(t, 120)
+	c.ReqSize = rapid.SampledFrom([]int{0, 0, 30, 300}).Draw(t, "reqsize")
 	return c
 }
 
@@ -172,6 +177,7 @@ func runC10(c c10Case) (r pbt.Result) {
 	if c.Shape == 5 {
 		req = append([]byte{0xEE}, "payload"...)
 	}
+	req = append(req, bytes.Repeat([]byte{'.'}, c.ReqSize)...)
 	var wantErr error
 	var wantMsg string
 	var wantCode uint64
@@ -270,7 +276,7 @@ func runC10(c c10Case) (r pbt.Result) {
 	switch c.Shape {
 	case 0:
 		if c.Err == nil {
-			wantMsgs = []string{"re:ping"}
+			wantMsgs = []string{"re:" + string(req)}
 		}
 	case 1:
 		for i := 0; i < c.K; i++ {
